@@ -32,7 +32,7 @@ def plan(tier, seed):
     # live trading: the decision is taken on what the order stream and the responses have told the framework; at a quiescent point
     # (every response delivered, current bet table processed) that must be the exchange's own table
     n = 1500 if tier == "quick" else 40000
-    cases += [{"mode": "live_gate", "seed": seed, "idx": i, "cfg": {"n": 1 + i % 3, "async": i % 4 == 3, "hc": i % 3 == 1, "ext": i % 2 == 1, "sp": (i // 2) % 4 if i % 6 == 5 else 0}, "len": 9 + i % 6} for i in range(n)]
+    cases += [{"mode": "live_gate", "seed": seed, "idx": i, "cfg": {"n": 1 + i % 3, "async": i % 4 == 3, "hc": i % 3 == 1, "ext": i % 2 == 1, "sp": (i // 2) % 4 if i % 6 == 5 else 0, "lose_reply": i % 4 == 2}, "len": 9 + i % 6} for i in range(n)]
     # scripted beginnings in which the framework must learn of a fill through the stream alone (after a replace, around a cancel
     # that the exchange answers BET_TAKEN_OR_LAPSED, with the update overtaking the response), followed by a short random walk
     pre = [
